@@ -151,6 +151,9 @@ class Gen:
                 for j in range(cnt):
                     if r.random() < 0.1:
                         inh += self.string(0, interp=False, simple=True, tag=f"{nm}{j}")
+                    elif r.random() < 0.04:
+                        # accepted by the grammar (an `interpolation` among the inherited attrs)
+                        inh += ["${", self.name(), "}"]
                     else:
                         inh.append(f"{nm}{j}" if j else nm)
                 out += inh + [";"]
